@@ -632,6 +632,12 @@ class Shadow:
                 if cap < min(old, bound): self.fail("capacity", "%s: capacity %d below the bound %d" % (what, cap, min(old, bound)))
                 if d.bk == "heap" and cap != min(old, bound):
                     self.fail("capacity", "%s: heap capacity %d, expected exactly %d" % (what, cap, min(old, bound)))
+        # operations that have no business with the capacity leave it alone (a raw-parts round trip above all)
+        if op in ("rawrt", "rawparts", "get", "at", "iter", "iterc", "info", "probe", "views", "dcvec", "lazydc", "swapb", "tswap",
+                  "wswap", "tassign", "clear", "pop", "remove", "swapremove", "tpop", "tremove", "tswapremove", "drain") and o.res == "ok":
+            v = int(toks[1]) if len(toks) > 1 and toks[1].isdigit() else None
+            if v is not None and v in o.vecs and v in prev_caps and o.vecs[v][1] != prev_caps[v]:
+                self.fail("capacity", "%s: capacity changed from %d to %d" % (what, prev_caps[v], o.vecs[v][1]))
         # amortised growth of push runs
         if op in ("push", "tpush") and o.res == "ok":
             v = int(toks[1])
